@@ -35,14 +35,15 @@ def es(rng, addr, df=17, cf=None):
     return b
 
 
-def f_ident(rng, addr, callsign, df=17):
+def f_ident(rng, addr, callsign, df=17, codes=None):
+    """callsign: text; codes: eight raw 6-bit character codes instead (any of the 64, also the unassigned ones)"""
     b = es(rng, addr, df)
     setf(b, 32, 5, rng.randrange(1, 5))
     setf(b, 37, 3, rng.randrange(8))
     cs = (callsign + " " * 8)[:8]
     for k, ch in enumerate(cs):
         c = 32 if ch == " " else (ord(ch) - 64 if ch.isalpha() else ord(ch))
-        setf(b, 40 + 6 * k, 6, c)
+        setf(b, 40 + 6 * k, 6, c if codes is None else codes[k])
     return gen.with_parity(b)
 
 
@@ -58,12 +59,12 @@ def f_vel(rng, addr, ve, vn, vr, st=1, df=17):
     return gen.with_parity(b)
 
 
-def f_pos(rng, addr, lat, lon, odd, alt_ft=10000, df=17, tc=None, raw=None):
+def f_pos(rng, addr, lat, lon, odd, alt_ft=10000, df=17, tc=None, raw=None, alt_raw=None):
     b = es(rng, addr, df)
     tc = tc if tc is not None else rng.choice(list(range(9, 19)) + [20, 21, 22])
     setf(b, 32, 5, tc)
     setf(b, 37, 2, rng.randrange(4)); setf(b, 39, 1, rng.randrange(2))
-    setf(b, 40, 12, alt_code12(alt_ft))
+    setf(b, 40, 12, alt_code12(alt_ft) if alt_raw is None else alt_raw)
     setf(b, 52, 1, rng.randrange(2)); setf(b, 53, 1, odd)
     yz, xz = raw if raw is not None else encode(lat, lon, odd)
     setf(b, 54, 17, yz); setf(b, 71, 17, xz)
@@ -141,10 +142,17 @@ def random_history(rng, hid, steps, n_aircraft, with_time=True, with_serde=True)
                 p["alt"] = max(0, min(50175, p["alt"] + rng.choice((-2000, -100, 25, 100, 2000))))
             odd = rng.randrange(2)
             raw = (rng.randrange(P17), rng.randrange(P17)) if k >= 0.95 else None
-            out.append(frame_step(f_pos(rng, a, p["lat"], p["lon"], odd, p["alt"], df=p["df"], raw=raw)))
+            # the altitude field is sometimes any 12-bit code (Gillham codes, illegal patterns, the extremes): what the record
+            # holds is what the decoder contract says about that code
+            alt_raw = rng.choice((None, None, None, rng.randrange(4096), rng.choice((0, 1, 0x10, 0xFFF, 0xFEF, 0x28A, 0x7FF))))
+            out.append(frame_step(f_pos(rng, a, p["lat"], p["lon"], odd, p["alt"], df=p["df"], raw=raw, alt_raw=alt_raw)))
         elif r < 0.55:
             cs = "".join(rng.choice("ABCXYZ019 ") for _ in range(rng.randrange(0, 9)))
-            out.append(frame_step(f_ident(rng, a, cs, df=p["df"])))
+            # sometimes any eight of the 64 character codes (unassigned ones, code 0 in front, all spaces, ...)
+            codes = None
+            if rng.random() < 0.3:
+                codes = [rng.choice((rng.randrange(64), 0, 32, 31, 63, 58, 1, 48)) for _ in range(8)]
+            out.append(frame_step(f_ident(rng, a, cs, df=p["df"], codes=codes)))
         elif r < 0.67:
             ve = (rng.randrange(2), rng.choice((0, 1, 2, 100, 500, 1023)))
             vn = (rng.randrange(2), rng.choice((0, 1, 2, 100, 500, 1023)))
@@ -188,8 +196,17 @@ def tie_histories(rng, count):
     """aircraft whose even/odd reports sit on a rounding tie of a zone index (the pairing must pick the zone the standard's
     floor(x + 1/2) picks), heard by a receiver close to where the pair decodes: one short history per pair"""
     import pair_checks
-    ties = [x for x in pair_checks.inputs(random.Random(rng.getrandbits(32)), "quick") if x["tag"] == "tie"]
+    allp = pair_checks.inputs(random.Random(rng.getrandbits(32)), "quick")
+    ties = [x for x in allp if x["tag"] == "tie"]
     rng.shuffle(ties)
+    ties = ties[:count]
+    # ... and a sample of every other special place the pairing knows: poles, equator, the 180-degree meridian, zone
+    # transitions, zone rows, pairs that cannot stem from one location
+    for tag in ("pole", "equator", "anti", "anti180", "meridian", "nltrans", "zonerow", "beyondpole", "disp"):
+        xs = [x for x in allp if x["tag"] == tag]
+        rng.shuffle(xs)
+        ties += xs[:max(4, count // 12)]
+    count = len(ties)
     out = []
     for i, t in enumerate(ties):
         if len(out) >= count:
@@ -197,13 +214,15 @@ def tie_histories(rng, count):
         first, second = t["first"], t["second"]
         e, o = (first, second) if first[0] == 0 else (second, first)
         pos = pair_checks.decode_ref((e[1], e[2]), (o[1], o[2]), second[0] == 1)
-        if pos is None or abs(pos[0]) > 85:
-            continue
+        rng_m = 300000
+        if pos is None:
+            # a pair that decodes nowhere: the record is cleared wherever the receiver is and however far it listens
+            pos, rng_m = (0.0, 0.0), 21000000
         a = rng.randrange(1, 1 << 24)
         steps = [frame_step(f_pos(rng, a, 0, 0, first[0], 12000, raw=(first[1], first[2]))),
                  frame_step(f_pos(rng, a, 0, 0, second[0], 12000, raw=(second[1], second[2]))),
                  frame_step(f_ident(rng, a, "TIE%d" % i))]
-        out.append({"id": f"tie{i}", "rx": [round(pos[0] * 1e6), round(pos[1] * 1e6)], "range_m": 300000, "steps": steps})
+        out.append({"id": f"tie{i}", "rx": [round(pos[0] * 1e6), round(pos[1] * 1e6)], "range_m": rng_m, "steps": steps})
     return out
 
 
